@@ -19,7 +19,7 @@ ABS = {"px": ("len", 1.0), "in": ("len", 96.0), "cm": ("len", 96.0 / 2.54), "deg
 
 
 def plan(tier):
-    return {"budget_s": 45 if tier == "quick" else 400, "profiles": ["R"], "min_evaluations": 20000}
+    return {"budget_s": 45 if tier == "quick" else 400, "profiles": ["R"], "min_evaluations": 2000}
 
 
 def num_text(x):
